@@ -958,8 +958,17 @@ Definition session_ser (m : mode) (bodies : list (list minstr)) (cells : list ce
    on a mismatch both observations are printed in full in the replay file *)
 Definition FP_MASK : N := 340282366920938463463374607431768211455%N.      (* 2^128 - 1 *)
 Definition FP_MUL : N := 6364136223846793005%N.
+(* the bytes are consumed as 8-byte big-endian words (a shorter last group is prefixed with 01);
+   the accumulator starts from the length *)
+Fixpoint words (l : bytes) : list N :=
+  match l with
+  | [] => []
+  | a :: b :: c :: d :: e :: f :: g :: h :: r => be_to_N [a; b; c; d; e; f; g; h] :: words r
+  | rest => [be_to_N (x01 :: rest)]
+  end.
+
 Definition fingerprint (b : bytes) : N :=
-  fold_left (fun acc x => N.land (acc * FP_MUL + Byte.to_N x + 1) FP_MASK) b 0%N.
+  fold_left (fun acc w => N.land (acc * FP_MUL + w + 1) FP_MASK) (words b) (N.of_nat (List.length b)).
 
 Definition session_fp (m : mode) (bodies : list (list minstr)) (cells : list cell) : N :=
   fingerprint (session_ser m bodies cells).
